@@ -41,6 +41,11 @@ func (vc *VC) execCall(fr *frame, n *Node, x *ssa.Call) {
 		args = append(args, vc.value(fr, n, a))
 	}
 	sig := c.Signature()
+	if fr.fc != nil && len(fr.fc.CallSites) > 0 {
+		if sc := c.StaticCallee(); sc != nil {
+			vc.callSiteAsserts(fr, n, x, contractName(sc), args)
+		}
+	}
 	if c.IsInvoke() {
 		recv := vc.value(fr, n, c.Value)
 		vc.safety(fr, n, "nil", "interface receiver is non-nil", x.Pos(), not(fmt.Sprintf("(= %s nil.iface)", recv.T)))
@@ -226,6 +231,10 @@ func (vc *VC) callWithContract(fr *frame, n *Node, x *ssa.Call, callee *ssa.Func
 	}
 	ctx2 := &SpecCtx{vc: vc, lookup: lk2, st: n.st, oldSt: pre, oldLookup: lk, pkg: callee.Pkg.Pkg, fnName: callee.Name()}
 	for _, en := range fc.Ensures {
+		if strings.Contains(en.Text, "atloop(") {
+			// postcondition about an internal program point of the callee: proved of the callee, of no use to callers
+			continue
+		}
 		t, err := ctx2.EvalBool(en.E)
 		if err != nil {
 			vc.errorf("ensures of %s at call: %v", fc.Name, err)
@@ -737,4 +746,49 @@ func (vc *VC) memAtByName(st *State, name string) string {
 		return v
 	}
 	return vc.resolveEpoch(st.epoch, name, vc.memSortByName(name, vc.enc.mems[name]))
+}
+
+// callSiteAsserts: `callsite <callee> expr` clauses of the enclosing function: obligations at this call.
+// Names resolve to parameters, $argN (the call's arguments) and the nearest dominating phi carrying that source name.
+func (vc *VC) callSiteAsserts(fr *frame, n *Node, x *ssa.Call, callee string, args []Val) {
+	for _, cs := range fr.fc.CallSites {
+		if cs.Callee != callee {
+			continue
+		}
+		cs.Hits++
+		lookup := func(name string) (Val, bool) {
+			if strings.HasPrefix(name, "$arg") {
+				var k int
+				if _, err := fmt.Sscanf(name[4:], "%d", &k); err == nil && k >= 0 && k < len(args) {
+					return args[k], true
+				}
+				return Val{}, false
+			}
+			if v, ok := vc.paramLookup(fr, name); ok {
+				return v, true
+			}
+			for b := n.blk; b != nil; b = b.Idom() {
+				for _, in := range b.Instrs {
+					phi, ok := in.(*ssa.Phi)
+					if !ok {
+						break
+					}
+					if phi.Comment == name {
+						if v, ok := n.env[phi]; ok {
+							return v, true
+						}
+					}
+				}
+			}
+			return Val{}, false
+		}
+		entryLookup := func(name string) (Val, bool) { return vc.paramLookup(fr, name) }
+		ctx := &SpecCtx{vc: vc, lookup: lookup, st: n.st, oldSt: fr.entrySt, oldLookup: entryLookup, pkg: fr.fn.Pkg.Pkg, fnName: fr.fn.Name(), fr: fr}
+		t, err := ctx.EvalBool(cs.C.E)
+		if err != nil {
+			vc.errorf("callsite %s %q: %v", callee, cs.C.Text, err)
+			continue
+		}
+		vc.oblige("assert", fmt.Sprintf("callsite.%s%s.b%d", callee, labelOr(cs.C.Label, 0), n.blk.Index), cs.C.Text, vc.pos(x.Pos()), n.reach, t)
+	}
 }
